@@ -1,0 +1,26 @@
+//go:build verif
+
+// Verification contracts (property C16; comment-only, read by /verif/govc).
+// OffsetFetch asks the store for exactly the (group, topic, partition) of each requested entry and answers with the
+// store's offset and metadata for that entry, in request order; OffsetCommit hands the store exactly the committed
+// triple, offset and metadata. (Key injectivity for arbitrary names: lemmas of C22; record semantics of the in-memory
+// store: clauses of C17; both are part of the C16 check.)
+
+package broker
+
+//@ func (c *GroupCoordinator) OffsetFetch
+//@   ghost goff int64 = 0
+//@   ghost gmeta string = ""
+//@   ghost gerr error = nil
+//@   at FetchConsumerOffset#1 before assert [C16.fetch_asks_the_store_for_the_requested_triple] arg1 == req.Group && arg2 == topic.Topic && arg3 == partID
+//@   at FetchConsumerOffset#1 after set goff = ret0
+//@   at FetchConsumerOffset#1 after set gmeta = ret1
+//@   at FetchConsumerOffset#1 after set gerr = ret2
+//@   at append#1 before assert [C16.fetch_answers_with_the_store_record] len(arg1) == 1 && arg1[0].Partition == partID && arg1[0].Offset == goff && arg1[0].Metadata != nil && *arg1[0].Metadata == gmeta && (arg1[0].ErrorCode == 0) == isNilIface(gerr)
+//@   at append#2 before assert [C16.fetch_answers_every_requested_partition_of_the_topic] len(arg1) == 1 && arg1[0].Topic == topic.Topic && len(arg1[0].Partitions) == len(topic.Partitions)
+//@   loop 1 invariant resp != nil && -1 <= rangeindex__1 && rangeindex__1 < len(req.Topics) && len(resp.Topics) == rangeindex__1 + 1
+//@   loop 2 invariant -1 <= rangeindex__2 && rangeindex__2 < len(topic.Partitions) && len(topicResp.Partitions) == rangeindex__2 + 1 && topicResp.Topic == topic.Topic
+//@   ensures [C16.fetch_answers_every_requested_topic] err == nil && result0 != nil && len(result0.Topics) == len(req.Topics)
+
+//@ func (c *GroupCoordinator) OffsetCommit
+//@   at CommitConsumerOffset#1 before assert [C16.commit_hands_the_store_the_committed_triple_offset_and_metadata] arg1 == req.Group && arg2 == topic.Topic && arg3 == part.Partition && arg4 == part.Offset && arg5 == ite(part.Metadata != nil, *part.Metadata, "")
